@@ -129,7 +129,9 @@ def run_shard(spec, tier, seed):
                 out, tv, t = realwork.traced(p)
                 res.evaluations += 1
                 oracle(res, year, gates, out, tv, f'{year} {fam} {p.key}', realwork.replay_of(p, 'base', spec), drive)
-                if out.exc is None and out.ret is True:
+                # (a purpose-built return is flipped even if it does not solve as it stands: a change that inverts a gate refuses
+                # the "no" answer and lets the "yes" answer through)
+                if out.exc is None and (out.ret is True or (p.key in directed_keys and not witness)):
                     reads = {}
                     for (key, outcome, value, provided, raw, attempt) in tv.input_reads:
                         if outcome == 'value':
